@@ -369,10 +369,54 @@ func directedStale(r *rep.Report) {
 	}
 }
 
+// slowEventReads: an event whose action sleeps, then notes the time and reads the location's
+// facts, then writes one.  A client's write is acknowledged while the action sleeps.  If the
+// action's own clock reading is later than the acknowledgement, its read must contain the
+// write (operating the location directly it does: one instance); and the fact the action wrote
+// must be served once the event has returned.  TTLs: never, forever, one hour (never expiring here).
+func slowEventReads(r *rep.Report) {
+	for _, linear := range []bool{false, true} {
+		for _, ttl := range []time.Duration{sys.Never, sys.Forever, time.Hour} {
+			s, err := drv.NewSys(drv.SysOpts{Linear: linear, TTL: ttl}, cronner.New(true))
+			if err != nil {
+				continue
+			}
+			drv.SysDo(s, drv.Req{Op: "addRule", Loc: "E", Id: "slow", Doc: `{"when":{"pattern":{"hold":"?ms"}},"action":{"code":"Env.sleep(ms*1000000); var t = Date.now(); var n = Env.Search({item:'?i'}).Found.length; Env.AddFact('seen', {n: n}); String(t) + ':' + n"}}`})
+			var wg sync.WaitGroup
+			var ev string
+			wg.Add(1)
+			go func() {
+				defer wg.Done()
+				ev = drv.SysDo(s, drv.Req{Op: "event", Loc: "E", Doc: `{"hold":300}`})
+			}()
+			time.Sleep(100 * time.Millisecond)
+			w := drv.SysDo(s, drv.Req{Op: "addFact", Loc: "E", Id: "item1", Doc: `{"item":"one"}`})
+			ackMs := time.Now().UnixNano() / 1e6
+			wg.Wait()
+			seen := drv.SysDo(s, drv.Req{Op: "getFact", Loc: "E", Id: "seen"})
+			r.Case(true, fmt.Sprint("slow-event-reads", linear, ttl))
+			r.Count("slow_event_read_cases", 1)
+			wit := rep.J{"linear": linear, "ttl": ttl.String(), "event_value (action's clock ms : items it found)": ev, "write": w, "write_acknowledged_at_ms": ackMs, "seen_fact_after_event": seen}
+			var t, n int64
+			if _, err := fmt.Sscanf(ev, "%d:%d", &t, &n); err != nil || !strings.HasPrefix(w, "id=") {
+				r.Violate("", "slow event or concurrent write did not complete as expected", wit)
+				continue
+			}
+			if t > ackMs+2 && n < 1 {
+				r.Violate("", "the action of a running event read the location after a write had been acknowledged and missed it (the event works on an instance the cache no longer serves)", wit)
+			}
+			if seen == "notfound" || strings.HasPrefix(seen, "ERR") {
+				r.Violate("", "a fact written by an event's action is not served after the event returned", wit)
+			}
+		}
+	}
+}
+
 func overlap(r *rep.Report, e rep.Env) {
 	rounds := e.Pick(12, 80)
 	if e.Batch == 0 {
 		directedStale(r)
+		slowEventReads(r)
 	}
 	for round := 0; round < rounds; round++ {
 		rng := rand.New(rand.NewSource(e.BatchSeed()*39916801 + int64(round)))
@@ -448,7 +492,11 @@ func overlap(r *rep.Report, e rep.Env) {
 		case porcupine.Unknown:
 			r.Inconclusive("porcupine timeout")
 		case porcupine.Illegal:
-			r.Violate("c17.release-evicts-in-use", "a read that started after a write was acknowledged did not see it (the per-key history is not linearizable): the cache served a stale instance", rep.J{"ttl": ttl.String(), "linear": linear, "clients": clients, "history": log})
+			key := "c17.release-evicts-in-use" // the listed finding needs a finite TTL
+			if ttl == sys.Never {
+				key = ""
+			}
+			r.Violate(key, "a read that started after a write was acknowledged did not see it (the per-key history is not linearizable): the cache served a stale instance", rep.J{"ttl": ttl.String(), "linear": linear, "clients": clients, "history": log})
 		default:
 			if r.WantSample() {
 				r.Sample(rep.J{"stage": "overlap", "linear": linear, "clients": clients, "operations": len(ops), "verdict": "linearizable"})
